@@ -382,6 +382,11 @@ modint_field!(f_mi_spec6, ModInt256<0xFFFFFFFFFFFFFFFF, 0xFFFFFFFFFFFFFFFF, 0xFF
 modint_field!(f_mi_bls, ModInt256<0xFFFFFFFF00000001, 0x53BDA402FFFE5BFE, 0x3339D80809A1D805, 0x73EDA753299D7D48>);
 // 193-bit prime 2^192 + 133 (smallest supported size class).
 modint_field!(f_mi_193, ModInt256<0x0000000000000085, 0x0000000000000000, 0x0000000000000000, 0x0000000000000001>);
+// 194-bit primes (top limb 2): sparse 2^193 + 2^141 + c, dense, and one just below 3*2^192
+// (n mod 2^192 tiny / generic / huge: the sign and borrow decisions of the three-word helpers of split_vartime)
+modint_field!(f_mi_194s, ModInt256<0x09C1BBF90735C9D7, 0x0000000000000000, 0x0000000000002000, 0x0000000000000002>);
+modint_field!(f_mi_194d, ModInt256<0x01434BE3EBF87F35, 0xEA0CF04256BE1D97, 0xD77A0CB424B63937, 0x0000000000000002>);
+modint_field!(f_mi_194h, ModInt256<0xFFFFFFE479B4DF7D, 0xFFFFFFEFFFFFFFFF, 0xFFFFFFFFFFFFFFFF, 0x0000000000000002>);
 
 // GFp256 is an alias of ModInt256 in both backends (gfp256.rs is not compiled).
 modint_field!(f_gfp256, GFp256);
@@ -775,6 +780,9 @@ pub struct FieldRegs {
     mi_spec6: Vec<ModInt256<0xFFFFFFFFFFFFFFFF, 0xFFFFFFFFFFFFFFFF, 0xFFFFFFFFFFFFFFFF, 0x8000000000000021>>,
     mi_bls: Vec<ModInt256<0xFFFFFFFF00000001, 0x53BDA402FFFE5BFE, 0x3339D80809A1D805, 0x73EDA753299D7D48>>,
     mi_193: Vec<ModInt256<0x0000000000000085, 0x0000000000000000, 0x0000000000000000, 0x0000000000000001>>,
+    mi_194s: Vec<ModInt256<0x09C1BBF90735C9D7, 0x0000000000000000, 0x0000000000002000, 0x0000000000000002>>,
+    mi_194d: Vec<ModInt256<0x01434BE3EBF87F35, 0xEA0CF04256BE1D97, 0xD77A0CB424B63937, 0x0000000000000002>>,
+    mi_194h: Vec<ModInt256<0xFFFFFFE479B4DF7D, 0xFFFFFFEFFFFFFFFF, 0xFFFFFFFFFFFFFFFF, 0x0000000000000002>>,
     #[cfg(not(feature = "w32"))]
     g127: Vec<gg::G127>,
     #[cfg(not(feature = "w32"))]
@@ -820,6 +828,9 @@ pub fn dispatch(ty: &str, op: &str, a: &[&str], r: &mut FieldRegs) -> R {
         "mi_spec6" => f_mi_spec6(op, a, &mut r.mi_spec6),
         "mi_bls" => f_mi_bls(op, a, &mut r.mi_bls),
         "mi_193" => f_mi_193(op, a, &mut r.mi_193),
+        "mi_194s" => f_mi_194s(op, a, &mut r.mi_194s),
+        "mi_194d" => f_mi_194d(op, a, &mut r.mi_194d),
+        "mi_194h" => f_mi_194h(op, a, &mut r.mi_194h),
         #[cfg(not(feature = "w32"))]
         "g127" => f_g127(op, a, &mut r.g127),
         #[cfg(not(feature = "w32"))]
